@@ -298,7 +298,7 @@ func c07Edits(base []byte, yield func(C07Case) bool) bool {
 			}
 		}
 	}
-	for _, ins := range []string{"::", "\\q", "\\x4", "\\u12", "''", "'''", "{{", "}}", "/*", "//", ",,", "00", "__", "1.5.2", "null.foo", "2001-02-30", "2001-13-01T", "2001-01-01T24:00Z", "2001-01-01T00:60Z", "2001-01-01T00:00:60Z", "2001-01-01T00:00", "+inf1", "0x", "0b2", "1e", "1d+", "\\\n"} {
+	for _, ins := range []string{"::", "\\q", "\\x4", "\\u12", "''", "'''", "{{", "}}", "/*", "//", ",,", "00", "__", "1.5.2", "null.foo", "2001-02-30", "2001-13-01T", "2001-01-01T24:00Z", "2001-01-01T00:60Z", "2001-01-01T00:00:60Z", "2001-01-01T00:00", "+inf1", "0x", "0b2", "1e", "1d+", "\\\n", "\\uDC00", "\\uD83D", "\\uD83D\\u0041", "\"\\uDE00\"", "'\\uD800'"} {
 		for i := 0; i <= n; i++ {
 			d := append(append(append([]byte{}, base[:i]...), ins...), base[i:]...)
 			if !mk("insert-token", i, d) {
@@ -348,7 +348,12 @@ func c07BinTokens() [][]byte {
 	ts(append(append([]byte{}, y...), 0x81, 0x81, 0x80)...)                         // hour without minute
 	ts(append(append([]byte{}, y...), 0x81, 0x81, 0x80, 0x80, 0x80, 0x80, 0x01)...) // fraction 1d0 >= 1
 	ts(append(append([]byte{}, y...), 0x81, 0x81, 0x80, 0x80, 0x80, 0xC1, 0x81)...) // fraction -1d-1
-	ts(0x80)                                                                        // year 0
+	ts(0x80) // year 0
+	// fractions of one second or more with more than nine digits (year 1, so
+	// that the body stays within 13 bytes)
+	ts(0x81, 0x81, 0x81, 0x80, 0x80, 0x80, 0xCA, 0x02, 0xDF, 0xDC, 0x1C, 0x35) // 12345678901 d-10
+	ts(0x81, 0x81, 0x81, 0x80, 0x80, 0x80, 0xCA, 0x02, 0x54, 0x0B, 0xE4, 0x00) // 10^10 d-10
+	ts(0x81, 0x81, 0x81, 0x80, 0x80, 0x80, 0xCB, 0x17, 0x48, 0x76, 0xE8, 0x01) // 10^11+1 d-11
 	// annotation wrappers
 	add(0xE0) // lone E0 followed by whatever comes next
 	add(0xE1, 0x81)
@@ -388,7 +393,7 @@ func c07Bases(n int) [][]byte {
 	texts := []string{
 		"1", "a", "[1, 2]", "{a: 1, b: [x, y]}", "(a + 1 -inf)", "\"str\\n\" '''long''' '''er'''", "'quoted sym' a::b::3", "{{aGVsbG8=}} {{\"clob\"}} {{'''c''' '''d'''}}",
 		"2001-02-03T04:05:06.789-08:00 2001T 2001-02T 2001-02-28", "1.5e10 1d-3 0x1F 0b101 1_000 12.5 -7", "/* c */ a // d\n b", "null null.int true false nan +inf",
-		"{a: {b: {c: []}}, \"s\": (1), '''l''': 2}", "$ion_symbol_table::{symbols:[\"s\"]} $10 s::$10", "a::[1] b::(2) c::{d:3}", "[\"\\u00e9\\x41\\U0001F600\", 'a\\'b']",
+		"{a: {b: {c: []}}, \"s\": (1), '''l''': 2}", "\"\\uD83D\\uDE00\" '\\uD83D\\uDE00' '''\\uD83D\\uDE00'''", "$ion_symbol_table::{symbols:[\"s\"]} $10 s::$10", "a::[1] b::(2) c::{d:3}", "[\"\\u00e9\\x41\\U0001F600\", 'a\\'b']",
 	}
 	var out [][]byte
 	for _, s := range texts {
